@@ -33,9 +33,6 @@
 //   - media-sequence continuity of playlist.m3u8 across incarnations (C10, known
 //     finding), retry / restart rules of relay push (C17): the harness nudges
 //     Group.Tick until the push of a later incarnation has been started;
-//   - a relay push whose handshake is still in flight when the input leaves (the
-//     harness waits until every push session is registered before it ends an
-//     input);
 //   - exact GOP-cache content and start-up rules (C02), completeness of a
 //     consumer's run before the point named below (C01).
 package c16
@@ -66,6 +63,9 @@ type Inc struct {
 	Codecs gen.Codecs `json:"codecs"`
 	Items  []gen.Item `json:"items"`
 	End    string     `json:"end"`  // close | kick | idle | dispose
+	// PushLate: the push targets accept the TCP connection but answer the RTMP handshake only after the input has
+	// ended (relay push still connecting when the input leaves); otherwise the push sessions are established first.
+	PushLate bool `json:"push_late,omitempty"`
 	Tail   string     `json:"tail"` // generator's tail class (information only)
 }
 
@@ -288,6 +288,9 @@ func genCase(t *rapid.T) Case {
 			}
 		}
 		in.End = rapid.SampledFrom(ends).Draw(t, "end")
+		if in.Input == "rtmp" && c.Push > 0 {
+			in.PushLate = rapid.IntRange(0, 3).Draw(t, "pushLate") == 0
+		}
 		c.Incs = append(c.Incs, in)
 	}
 	kinds := []string{"rtmp", "flv"}
@@ -394,9 +397,6 @@ func instantClass(c Case, in Inc) string {
 	prevKeyTs := int64(-1)
 	for i, it := range in.Items {
 		if it.Kind == "video" {
-			if it.Key && i != len(in.Items)-1 {
-				// candidate for "the key frame before the last one"
-			}
 			lastV = i
 		}
 	}
@@ -460,6 +460,13 @@ func classify(c Case) (bool, []string) {
 		if c.Hls {
 			labels = append(labels, "hls-end:"+in.End+"/"+ic)
 		}
+		if c.Push > 0 && in.Input == "rtmp" {
+			if in.PushLate {
+				labels = append(labels, "push-end:"+in.End+"/handshake-in-flight")
+			} else {
+				labels = append(labels, "push-end:"+in.End+"/established")
+			}
+		}
 		if tsOut && (ic == "pending-audio" || ic == "probe-queue-open") {
 			nt = true
 		}
@@ -511,6 +518,6 @@ func uniq(in []string) []string {
 func TestInputEnd(t *testing.T) {
 	pbt.Run(t, pbt.Spec[Case]{
 		ID: "C16", Name: "input-end", Gen: genCase, Run: run, Classify: classify,
-		Quick: 220, Thorough: 2500, Isolate: true,
+		Quick: 400, Thorough: 2500, Isolate: true,
 	})
 }
